@@ -72,9 +72,7 @@ def wfStatusB (r : Spec.StatusRec) : Bool := (r.pre ++ r.mid1 ++ r.mid2).all oth
 
 def wfCtxB (r : Spec.StatusRec) : Bool :=
   decide (r.comm.length ≤ 15) &&
-  (r.pre ++ [Spec.idLine Spec.keyUid r.uid, Spec.idLine Spec.keyGid r.gid] ++ r.mid1
-      ++ [(Spec.keyThreads, renderDec r.threads)] ++ r.mid2).all
-    fun kv => noCtxHitB (kv.1 ++ [58, 9] ++ kv.2)
+  (r.pre ++ r.mid1 ++ r.mid2).all fun kv => noCtxHitB (kv.1 ++ [58, 9] ++ kv.2)
 
 /-! JSON of outcomes -/
 
